@@ -197,6 +197,7 @@ class Rig(object):
             t = threading.Thread(target=call, name="verif-send")
             t.daemon = True
             t.start()
+            t.join(0.05)     # the peer is slow to read: a send that returns although the socket took only part of it shows as lost bytes
             end = time.time() + WAIT
             while t.is_alive() and time.time() < end:
                 if self.peer_read() != "ok":
